@@ -367,6 +367,13 @@ def check_pv(case):
     f = 'PV(%s)' % args
     r = Env(vars=vars_).parse(f)
     g = r['result']
+    # the other spellings of "future value 0" / "type 0": a blank slot, NULL, a blank variable, with either list separator - all must give the very same number
+    if not fv and not typ and r['error'] is None:
+        k = (int(abs(pmt)) + int(n)) % 6
+        alt = ['PV(v_r,v_n,v_p,0,)', 'PV(v_r;v_n;v_p;0;)', 'PV(v_r,v_n,v_p,NULL,NULL)', 'PV(v_r,v_n,v_p,v_blank,v_blank)', 'PV(v_r,v_n,v_p,0,NULL)', 'PV(v_r,v_n,v_p,,0)'][k]
+        r2 = Env(vars=dict(vars_, v_blank=None)).parse(alt)
+        if r2['error'] is not None or r2['result'] != g:
+            raise Violation('%s = %r but %s -> %r with %r (a blank future value / type means 0)' % (f, g, alt, r2['error'] or r2['result'], case), r2['error'] or enc(r2['result']), g)
     R, N, P, F, T = Fraction(rate), Fraction(n), Fraction(pmt), Fraction(fv or 0), Fraction(typ or 0)
     if abs(float(N) * math.log1p(rate)) > 600 if rate > -1 else True:
         raise Skip('ill-conditioned-or-overflow')
@@ -407,6 +414,18 @@ def check_rand(case):
     g = r['result']
     if r['error'] is not None or isinstance(g, bool) or not isinstance(g, float) or not (0.0 <= g < 1.0):
         raise Violation('RAND() -> %r' % (r,), r['error'] or enc(g), '[0,1)')
+    # the end points of the random source itself (probability 2^-53 each when sampling): the harness owns the source for one call
+    import random as _random
+    real = _random.random
+    for draw_ in (0.0, 2.0 ** -53, 1 - 2.0 ** -53, 0.5):
+        _random.random = lambda d=draw_: d
+        try:
+            r = pev('RAND()')
+        finally:
+            _random.random = real
+        g = r['result']
+        if r['error'] is not None or isinstance(g, bool) or not isinstance(g, float) or not (0.0 <= g < 1.0):
+            raise Violation('RAND() -> %r when the random source draws %r' % (r, draw_), r['error'] or enc(g), '[0,1)')
     lo, hi = min(a, b), max(a, b)
     f = 'RANDBETWEEN(%s,%s)' % (lit(lo), lit(hi))
     r = pev(f)
